@@ -64,7 +64,7 @@ def table_case(draw, tier):
     comp = draw(gens.gas_composition())
     hi = 3000.0 if tier == "quick" else 14000.0
     pmax = draw(st.one_of(st.integers(3, int(hi // 10)).map(lambda k: 10.0 * k), st.floats(25.0, hi), st.sampled_from([20.0, 30.0, 1000.0])))
-    return {"kind": "table", "comp": comp, "pmax": pmax, "container": draw(st.sampled_from(["dict", "series"]))}
+    return {"kind": "table", "comp": comp, "pmax": pmax, "container": draw(st.sampled_from(["dict", "series", "series-other-order", "dataframe-row", "dict-other-order", "dict-int-values"]))}
 
 
 @st.composite
@@ -245,10 +245,24 @@ def check_case(case) -> Result:
         res.skipped = "Sutton point puts the state outside the Z-factor's range"
         return res
     gv_in = gv
+    res.labels["gas_values_container"] = case["container"]
+    other = ["Gas Specific Gravity", "Reservoir Temperature (deg F)", "CO2", "N2", "H2S"]  # the same entries, listed in another order
     if case["container"] == "series":
         import pandas as pd
 
         gv_in = pd.Series(gv)
+    elif case["container"] == "series-other-order":
+        import pandas as pd
+
+        gv_in = pd.Series({k: gv[k] for k in other})
+    elif case["container"] == "dataframe-row":
+        import pandas as pd
+
+        gv_in = pd.DataFrame([{"Well": 7.0, **{k: gv[k] for k in other}}, {"Well": 8.0, **{k: 0.5 for k in other}}]).iloc[0]
+    elif case["container"] == "dict-other-order":
+        gv_in = {k: gv[k] for k in other}
+    elif case["container"] == "dict-int-values" and float(comp["T"]).is_integer():
+        gv_in = {**gv, "Reservoir Temperature (deg F)": int(comp["T"])}
     df = lib("build_pvt_gas", build_pvt_gas, gv_in, comp["dryness"], pmax)
     want_p = np.arange(10.0, pmax, 10.0)
     need = ["temperature", "pressure", "Density", "z-factor", "compressibility", "viscosity", "pseudopressure"]
